@@ -91,6 +91,17 @@ Theorem c05_exec_legal_session : forall cf labs gls, in_fragment cf labs gls ->
   s_violated (x_srv (fst (xrun (xinit cf) labs))) = false.
 Proof. exact exec_never_violated. Qed.
 
+(* ... on the wire: what the client has written and the server has not read yet is the rest of a sequence of whole requests (the
+   server may be half-way through a command list: then [pre] is what it has read of it), at most one of them a request, and
+   while the simulated server waits in idle only (at most one) noidle is on its way to it *)
+Theorem c05_exec_wire : forall cf labs gls, in_fragment cf labs gls ->
+  let xf := fst (xrun (xinit cf) labs) in
+  exists ws pre, concat ws = pre ++ x_c2s xf /\ Forall (write_ok cf) ws /\
+    (s_list (x_srv xf) = None -> pre = []) /\
+    (length (filter is_req ws) <= 1)%nat /\
+    (s_idle (x_srv xf) = true -> ws = [] \/ ws = [noidle_line]).
+Proof. exact exec_wire. Qed.
+
 (* the segments [run_loopm] prints — what the real client's trace is compared with — are the
    renderings of the structured segments of [xrun] *)
 Theorem c05_exec_trace_text : forall cf labs gls t0, in_fragment cf labs gls ->
@@ -118,5 +129,6 @@ Print Assumptions c05_returns_to_idle.
 Print Assumptions c05_runs_are_bounded.
 Print Assumptions c05_exec_refines.
 Print Assumptions c05_exec_legal_session.
+Print Assumptions c05_exec_wire.
 Print Assumptions c05_exec_trace_text.
 Print Assumptions c05_exec_no_panic.
